@@ -15,11 +15,11 @@ def verdictStr : Spec.Verdict → String
 def handler (mode : String) (line : String) : String :=
   match mode with
   | "model" =>
-      match (parse line).bind caseOf? with
+      match (parseFast line).bind caseOf? with
       | some c => if Wf.wfCase c then toStr (obsT c.probes (run Regex.env c)) else "(bad-case)"
       | none => "(bad-case)"
   | "oracle" =>
-      match parseMany line with
+      match parseManyFast line with
       | some [ct, ot] =>
           match caseOf? ct with
           | some c =>
@@ -30,6 +30,17 @@ def handler (mode : String) (line : String) : String :=
                 | some o => verdictStr (Spec.check Regex.env c o)
                 | none => "fail step=0 idx=0 clause=unparsable-observation"
           | none => "(bad-case)"
+      | _ => "(bad-line)"
+  | "parse" =>
+      match parseManyFast line with
+      | some [ct, ot] =>
+          match caseOf? ct with
+          | some c => (match obsOf? c.probes ot with | some o => s!"{o.length}" | none => "unparsable")
+          | none => "(bad-case)"
+      | _ => "(bad-line)"
+  | "parse0" =>
+      match parseManyFast line with
+      | some l => s!"{l.length}"
       | _ => "(bad-line)"
   | _ => "(bad-mode)"
 
